@@ -516,11 +516,13 @@ pub struct RewriteCase {
     pub relocate: Option<(u16, u16, u8)>,
 }
 
-const PLAIN: [&str; 6] = ["a", "b", "c", "d", "ab", "cd"];
+/// base names of the matcher's domain; two of them carry a double quote, which a glob takes
+/// literally but which the stored (escaped) form of a tree node name spells `\"`
+const PLAIN: [&str; 8] = ["a", "b", "c", "d", "ab", "cd", "q\"q", "\"x"];
 
 fn plain_name(old: &[u8]) -> Vec<u8> {
     let h = old.iter().fold(0u32, |a, b| a.wrapping_mul(31).wrapping_add(u32::from(*b)));
-    let base = PLAIN[(h % 6) as usize];
+    let base = PLAIN[(h % PLAIN.len() as u32) as usize];
     let ext = ["", "", ".txt", ".log", ".tmp"][((h / 7) % 5) as usize];
     format!("{base}{ext}").into_bytes()
 }
@@ -565,7 +567,7 @@ fn simple_tree(p: TreeParams) -> BoxedStrategy<MNode> {
             fn rename(n: &mut MNode, top: bool) {
                 if !top {
                     let h = n.name.iter().fold(0u32, |a, b| a.wrapping_mul(31).wrapping_add(u32::from(*b)));
-                    let base = ["a", "b", "c", "d", "ab", "cd"][(h % 6) as usize];
+                    let base = PLAIN[(h % PLAIN.len() as u32) as usize];
                     let ext = ["", "", ".txt", ".log", ".tmp"][((h / 7) % 5) as usize];
                     n.name = format!("{base}{ext}").into_bytes();
                 }
@@ -600,7 +602,7 @@ fn rewrite_strategy(_ctx: &Ctx) -> BoxedStrategy<RewriteCase> {
         .prop_flat_map(|cfg| {
             let mut p = params(&cfg);
             p.file_cap = 60_000;
-            let name = || prop::sample::select(vec!["a", "b", "c", "d", "ab", "cd", "a.txt", "b.log", "c.tmp", "zz"]).prop_map(str::to_string);
+            let name = || prop::sample::select(vec!["a", "b", "c", "d", "ab", "cd", "a.txt", "b.log", "c.tmp", "zz", "q\"q", "\"x", "q\"q.txt"]).prop_map(str::to_string);
             let glob = prop_oneof![
                 2 => prop::collection::vec(name(), 0..3).prop_map(|mut v| {
                     v.insert(0, "s".to_string());
@@ -711,7 +713,7 @@ fn run_rewrite(c: &RewriteCase, _ctx: &Ctx) -> Outcome {
     let plain = w.live.iter().all(|l| {
         l.model
             .keys()
-            .all(|k| k.iter().all(|b| b.is_ascii_alphanumeric() || *b == b'.' || *b == b'/'))
+            .all(|k| k.iter().all(|b| b.is_ascii_alphanumeric() || *b == b'.' || *b == b'/' || *b == b'"'))
     });
     if !plain {
         return out.skip("names_outside_matcher_domain");
@@ -1072,7 +1074,7 @@ pub fn spec() -> PropSpec {
         rule: "four proptest generators. copy: source repository of 1–3 snapshots sharing blobs (optionally repacked by a prune) x destination configuration with another key/version/compression/pack size that is empty, already holds a backup of one of the states, or an earlier copy; any subset of snapshots. merge: 2–4 snapshots that are edit-script variants of one tree (type changes, touches, adds/removes) x comparator (mtime, mtime-then-inode, size). rewrite: 1–4 snapshots of plain-name trees (edit scripts with plain names between them; optionally a non-empty directory moved so that one tree id occurs at two paths) x 0–3 excludes of the forms !/anchored/path (fixed or picked from the existing paths), !basename, !*.ext x forget. repair: 1–3 snapshots x {undamaged, one data pack removed + repair index, one index entry dropped} x delete. Non-trivial: copy into a non-empty destination or ≥2 snapshots; merge with a name carried by different entry types; rewrite removing a non-empty directory; damage that hits a file of a live snapshot. Distinct by hash of the case.",
         assumptions: vec![
             "merge ties: any candidate that is maximal under the comparator is accepted (the library's choice among equal elements depends on heap order)",
-            "rewrite is judged only for names of [A-Za-z0-9.] and the three exclude forms whose meaning is unambiguous",
+            "rewrite is judged only for names of [A-Za-z0-9.\"] and the three exclude forms whose meaning is unambiguous",
             "a lost pack is followed by repair-index before repair-snapshots, as a user would do",
         ],
         subs: vec![
